@@ -245,6 +245,10 @@ def make_case(ctx, g):
                  ("Cafe\u0301 \u212b", Literal("Cafe\u0301 \u212b", QualifiedName(Namespace("xsd", XSDU), "string"))),
                  (" padded\t", Literal(" padded\t")),
                  (Identifier("http://x/y"), Literal("http://x/y", QualifiedName(Namespace("xsd", XSDU), "anyURI")))]
+        # a URI is the characters it is written with: empty fragment or query, upper-case scheme, percent-escapes, IRIs
+        u = g.choice(["http://example.org/ns#", "http://example.org/q?", "HTTP://Example.org/A", "urn:example:thing#",
+                      "http://example.org/%7Euser/a%20b", "http://example.org/caf\u00e9#", "mailto:someone@example.org", "http://x/y#frag"])
+        pairs.append((Identifier(u), Literal(u, QualifiedName(Namespace("xsd", XSDU), "anyURI"))))
         t = g.dt()
         pairs.append((t, Literal(t.isoformat(), QualifiedName(Namespace("xsd", XSDU), "dateTime"))))
         # integers no binary double can hold: the value must arrive digit for digit
